@@ -1272,8 +1272,13 @@ func (u *Unit) skolemizeGoal(goal Term) Term {
 	}
 	var insts []Term
 	seen := map[string]bool{}
-	for _, q := range u.ctx.qrecs {
-		if q.full == goal.S || len(insts) >= 80 {
+	// most recent quantifiers first (callee contracts applied right before the goal are the likely partners); the
+	// total size is capped: a goal that drags 80 instantiated quantifiers along (2 index constants x every quantifier of
+	// two library contracts = 87 KB) was slower and flakier than the plain goal
+	total := 0
+	for qi := len(u.ctx.qrecs) - 1; qi >= 0; qi-- {
+		q := u.ctx.qrecs[qi]
+		if q.full == goal.S || len(insts) >= 48 || total > 40000 {
 			continue
 		}
 		for vi, v := range q.vars {
@@ -1296,6 +1301,7 @@ func (u *Unit) skolemizeGoal(goal Term) Term {
 				if !seen[t] {
 					seen[t] = true
 					insts = append(insts, Term{t, SBool})
+					total += len(t)
 				}
 			}
 		}
